@@ -394,7 +394,34 @@ Inductive case :=
        (oafter : list N) (odtype_kept : bool)
 (* two images of one feature type written one after the other (second may be the same name), then the first
    is read back and the image ids are listed *)
-| CTwo (kind : string) (st : store) (n1 n2 : string) (m1 m2 : mem) (ord1 : robs) (oids : list string).
+| CTwo (kind : string) (st : store) (n1 n2 : string) (m1 m2 : mem) (ord1 : robs) (oids : list string)
+(* DIFFERENT arrays written in turn to the SAME destination (file or tar member) of one front end: after every
+   write, the bytes found there and what the reader returns; [bystander] is another file of the same feature
+   type written before, [oby] its bytes at the end *)
+| CRewrite (a : api) (st : store) (bystander : list N)
+           (steps : list (mem * wobs * list N * robs)) (oby : list N).
+
+(* a write REPLACES the content of its destination; the reader is given the element type / column count /
+   (width, height) of the array just written *)
+Fixpoint rewrite_run (a : api) (st : store) (f : fstore) (steps : list (mem * wobs * list N * robs)) (oby : list N)
+  : bool :=
+  match steps with
+  | [] => match fs_read "other" f with Some c => eqb c oby | None => false end
+  | (m, ow, ob, ord) :: rest =>
+      match write_api (fun _ n => n) a m with
+      | Written bs =>
+          let f' := fs_write "dest" bs f in
+          let (h, w) := match m_shape m with [h; w] => (Z.of_N h, Z.of_N w) | _ => (1%Z, Z.of_N (prodN (m_shape m))) end in
+          wobs_eqb ow WOk
+          && match fs_read "dest" f' with
+             | Some c => eqb c ob && robs_eqb (robs_of (read_api a st (m_dtype m) w w h c)) ord
+             | None => false
+             end
+          && rewrite_run a st f' rest oby
+      | Refused => wobs_eqb ow WRefused && rewrite_run a st f rest oby
+      | IndexErr => wobs_eqb ow WIndexErr && rewrite_run a st f rest oby
+      end
+  end.
 
 Definition check_case (c : case) : bool :=
   match c with
@@ -434,4 +461,5 @@ Definition check_case (c : case) : bool :=
       | None => false
       end
       && eqb (fs_ids (ext_of kind) f) oids
+  | CRewrite a st bystander steps oby => rewrite_run a st (fs_write "other" bystander []) steps oby
   end.
